@@ -12,6 +12,8 @@ Fail closed: any AST shape outside what is expected raises TranslatorError.  Tra
   finder._module_depth        `return len(name_parts_and_path[0])`  -> gen_sort_key_is_depth
   loader._load_module_path    `module_path.suffix in {...}`     -> gen_static_suffixes
   loader._load_submodule      `for subpart in subparts: if "." in subpart: return`  -> gen_dot_check_all_parts
+  census of the state         instance attributes of ModuleFinder / GriffeLoader assigned in a method, writes to class-level data
+                                                               -> gen_finder_state, gen_loader_state, gen_classvar_writes
 The model's own constants are compared with these tables by the compiled Example gen_tables_agree (Proofs/C14_finder.v).
 """
 from __future__ import annotations
@@ -153,6 +155,53 @@ def translate(ctx=None):
     if not dot_all:
         raise TranslatorError("_load_submodule: the dotted-name skip no longer tests every name part first")
 
+    # census of the mutable state: every attribute of a finder / loader instance that is (or whose item is) assigned in a method,
+    # and every site that writes class-level data
+    def instance_state(tree, cls):
+        attrs = set()
+        for n in tree.body:
+            if isinstance(n, ast.ClassDef) and n.name == cls:
+                for m in n.body:
+                    if isinstance(m, ast.FunctionDef):
+                        for x in ast.walk(m):
+                            tg = x.targets if isinstance(x, ast.Assign) else [x.target] if isinstance(x, (ast.AnnAssign, ast.AugAssign)) else []
+                            for t1 in tg:
+                                for y in ast.walk(t1):
+                                    if isinstance(y, ast.Attribute) and isinstance(y.value, ast.Name) and y.value.id == "self":
+                                        attrs.add(y.attr)
+        return sorted(attrs)
+
+    def class_vars(tree, cls):
+        out = []
+        for n in tree.body:
+            if isinstance(n, ast.ClassDef) and n.name == cls:
+                for m in n.body:
+                    if isinstance(m, ast.AnnAssign) and isinstance(m.target, ast.Name):
+                        out.append(m.target.id)
+                    elif isinstance(m, ast.Assign):
+                        out += [t.id for t in m.targets if isinstance(t, ast.Name)]
+        return out
+
+    cvars = set(class_vars(ft, "ModuleFinder")) | set(class_vars(lt, "GriffeLoader"))
+    mutators = {"add", "update", "discard", "remove", "clear", "pop", "append", "extend", "insert", "difference_update",
+                "intersection_update", "symmetric_difference_update", "sort", "reverse", "setdefault", "popitem"}
+    writes = []
+    for fname, tree in (("finder.py", ft), ("loader.py", lt)):
+        for fn in ast.walk(tree):
+            if not isinstance(fn, ast.FunctionDef):
+                continue
+            for x in ast.walk(fn):
+                tg = x.targets if isinstance(x, ast.Assign) else [x.target] if isinstance(x, (ast.AnnAssign, ast.AugAssign)) else []
+                for t1 in tg:
+                    for y in ast.walk(t1):
+                        if isinstance(y, ast.Attribute) and y.attr in cvars:
+                            writes.append(f"{fname}:{fn.name}:{ast.unparse(t1)}")
+                if isinstance(x, ast.Call) and isinstance(x.func, ast.Attribute) and x.func.attr in mutators \
+                        and isinstance(x.func.value, ast.Attribute) and x.func.value.attr in cvars:
+                    writes.append(f"{fname}:{fn.name}:{ast.unparse(x.func)}")
+    finder_state = instance_state(ft, "ModuleFinder")
+    loader_state = instance_state(lt, "GriffeLoader")
+
     b = lambda x: "true" if x else "false"
     out = [
         "(* GENERATED by harness/translate/c14_tables.py from /repo/src/_griffe/{finder,loader}.py -- do not edit *)",
@@ -175,6 +224,10 @@ def translate(ctx=None):
         f"Definition gen_sort_key_is_depth : bool := {b(depth_only)}.",
         f"Definition gen_static_suffixes : list string := {_strlist(st[0])}.",
         f"Definition gen_dot_check_all_parts : bool := {b(dot_all)}.", "",
+        "(* census of the state: instance attributes of ModuleFinder / GriffeLoader assigned in their methods; writes to class-level data *)",
+        f"Definition gen_finder_state : list string := {_strlist(finder_state)}.",
+        f"Definition gen_loader_state : list string := {_strlist(loader_state)}.",
+        f"Definition gen_classvar_writes : list string := {_strlist(sorted(set(writes)))}.", "",
     ]
     p = VERIF / "coq/Gen/C14_tables.v"
     text = "\n".join(out)
